@@ -274,13 +274,15 @@ def build_model_driver():
             except FileNotFoundError:
                 pass
     stamp = os.path.join(BUILD, 'driver.stamp')
-    src = os.path.join(VERIF, 'ocaml', 'driver.ml')
-    h = sha(os.path.join(BUILD, 'model.ml')) + sha(src)
+    srcdir = os.path.join(VERIF, 'ocaml')
+    mods = ['drv_common.ml'] + sorted(f for f in os.listdir(srcdir) if f.startswith('drv_') and f.endswith('.ml') and f != 'drv_common.ml') + ['driver.ml']
+    h = sha(os.path.join(BUILD, 'model.ml')) + ''.join(sha(os.path.join(srcdir, m)) for m in mods)
     if os.path.exists(stamp) and open(stamp).read() == h and os.path.exists(DRIVER):
         return True, 'driver up to date'
-    shutil.copy(src, os.path.join(BUILD, 'driver.ml'))
+    for m in mods:
+        shutil.copy(os.path.join(srcdir, m), os.path.join(BUILD, m))
     rc, out = run(['ocamlfind', 'ocamlopt', '-O3', '-w', '-a', '-package', 'str', '-linkpkg',
-                   'model.mli', 'model.ml', 'driver.ml', '-o', 'driver'], cwd=BUILD, timeout=900)
+                   'model.mli', 'model.ml'] + mods + ['-o', 'driver'], cwd=BUILD, timeout=900)
     if rc != 0:
         return False, 'driver build failed:\n' + out[-3000:]
     open(stamp, 'w').write(h)
